@@ -54,7 +54,7 @@ class Check(PropertyCheck):
             "and with the documented criterion; (b) defaults probe: both environments and DispatchingRuleSolver install "
             "the filter by default; (c) supporting search on the real code (no theorem rests on it): exhaustive memoised "
             "search of the available_operations() tree with and without the filter on small instances, optimum must "
-            "coincide - one scenario in three with feature observers subscribed as the environments do; non-trivial = instance where the filter removed >=1 operation in some state")
+            "coincide - one scenario in five after the filter worked on another (zero-duration) instance in the same process, one scenario in three with feature observers subscribed as the environments do; non-trivial = instance where the filter removed >=1 operation in some state")
     ASSUMPTIONS = ["instances are valid with positive durations (as the property states)"]
     QUICK_N = 160
 
@@ -148,6 +148,18 @@ class Check(PropertyCheck):
                 lines.append("q available")
                 lines.append(f"disp {j} {p} {rng.choice(jobs[j][p][0])}")
             lines.append("q available")
+        if rng.random() < 0.2:
+            # earlier in the same process: the filter at work on ANOTHER instance, one with zero-duration operations (outside the
+            # property's precondition itself, but nothing of it may leak into the instance under test)
+            _, zjobs = gen.gen_instance(rng, "zero", max_jobs=3, max_machines=4, max_ops=3)
+            pre = ["new", instance_line(zjobs), "filter comp dom", "q available"]
+            ztr = gen.Tracker(zjobs)
+            for _ in range(rng.randint(0, gen.num_ops(zjobs) - 1)):
+                j, p, m = gen.gen_valid_request(rng, ztr)
+                ztr.take(j)
+                pre += [f"disp {j} {p} {m}", "q available"]
+            lines = pre + lines
+            family += "+after_zero"
         meta = {"family": family, "flexible": gen.is_flexible(jobs), "search": search, "ops": gen.num_ops(jobs), "observers": observers,
                 "filter_style": rng.choice(["callable", "enum", "str"])}
         return Scenario(lines, meta)
